@@ -76,9 +76,9 @@ def run(ctx: vlib.Ctx):
                     "recognised tests and returned templates are listed explicitly, anything else fails closed)"]
     ctx.trusted += ["TyModel.v (cp/pk: hand-written model of pack.py registry order, copy-vs-comprehension and could_be_none decisions) "
                     "tied by vm_compute correspondence; stdlib renderings (isoformat, str, total_seconds, encodebytes, Enum.value) are oracle tables"]
-    ctx.assumptions += ["format dialect part (orjson/msgpack/TOML native types, TOML null dropping) and unions/literals "
+    ctx.assumptions += ["format dialect part (orjson/msgpack/TOML native types, TOML null dropping) and unions (and enum-member / bytes literals) "
                         "are decided by the reference-interpreter oracle only (outside the Coq grammar); NamedTuple (as_list form), TypedDict "
-                        "(required keys, then the optional keys present) tuples with an unpacked segment (index/slice plan = kernel K7) and the abstract / special collection classes (Sequence, Mapping, Deque, OrderedDict, DefaultDict, MappingProxyType, Counter, ChainMap) are inside the Coq grammar; namedtuple_as_dict and generic NamedTuples/TypedDicts are oracle only"]
+                        "(required keys, then the optional keys present) tuples with an unpacked segment (index/slice plan = kernel K7) and the abstract / special collection classes (Sequence, Mapping, Deque, OrderedDict, DefaultDict, MappingProxyType, Counter, ChainMap) and Literal types of int/str/bool/None constants are inside the Coq grammar; namedtuple_as_dict and generic NamedTuples/TypedDicts are oracle only"]
 
     cases, bad, log = tycorr.run(ctx, "c02_ty", ctx.budget(40, 300), 3, depth=3, foreign=1)
     hits = tyoracle.report_corr(ctx, "TyModel.pk/ref_enc vs BasicEncoder.encode", cases, bad, log, want="enc")
